@@ -295,6 +295,14 @@ func lexStmt(l *lexer) stateFn {
 			l.emit(itemSemiColon)
 			return lexStmt
 		case r == '+':
+			// a '+' with the rest of a word behind it starts an unquoted
+			// string ("+1"); on its own it joins two quoted strings
+			rest := l.input[l.pos:]
+			if c, _ := utf8.DecodeRuneInString(rest); rest != "" && !isTerminator(c) && c != '\'' &&
+				!strings.HasPrefix(rest, leftComment) && !strings.HasPrefix(rest, lineComment) {
+				l.backup()
+				return lexString
+			}
 			l.emit(itemPlus)
 			return lexStmt
 		default:
